@@ -173,6 +173,25 @@ def looseEq (a b : Val) : Bool :=
 
 def unsupported : Res Val := .err "expr" "unsupported".toList
 
+/-- a binary operator other than `&&` / `||` on two evaluated operands -/
+def binOp (op : Str) (x y : Val) : Res Val :=
+  if op == ['=','='] then .ok (.bool (looseEq x y))
+  else if op == ['!','='] then .ok (.bool (!looseEq x y))
+  else match x, y with
+    | .int _ m, .int _ n =>
+      if op == ['+'] then .ok (.int .int (m + n)) else if op == ['-'] then .ok (.int .int (m - n))
+      else if op == ['*'] then .ok (.int .int (m * n))
+      else if op == ['%'] then (if n == 0 then .err "expr" [] else .ok (.int .int (Int.tmod m n)))
+      else if op == ['<'] then .ok (.bool (m < n)) else if op == ['>'] then .ok (.bool (m > n))
+      else if op == ['<','='] then .ok (.bool (m ≤ n)) else if op == ['>','='] then .ok (.bool (m ≥ n))
+      else unsupported
+    | .str s, .str t =>
+      if op == ['+'] then .ok (.str (s ++ t))
+      else if op == ['<'] then .ok (.bool (s < t)) else if op == ['>'] then .ok (.bool (t < s))
+      else if op == ['<','='] then .ok (.bool (s ≤ t)) else if op == ['>','='] then .ok (.bool (t ≤ s))
+      else unsupported
+    | _, _ => .err "expr" "invalid operation".toList
+
 mutual
 def eval (env : Scope) : Ex → Res Val
   | .lit v => .ok v
@@ -237,23 +256,7 @@ def eval (env : Scope) : Ex → Res Val
       | r => r
     else
       match eval env a, eval env b with
-      | .ok x, .ok y =>
-        if op == ['=','='] then .ok (.bool (looseEq x y))
-        else if op == ['!','='] then .ok (.bool (!looseEq x y))
-        else match x, y with
-          | .int _ m, .int _ n =>
-            if op == ['+'] then .ok (.int .int (m + n)) else if op == ['-'] then .ok (.int .int (m - n))
-            else if op == ['*'] then .ok (.int .int (m * n))
-            else if op == ['%'] then (if n == 0 then .err "expr" [] else .ok (.int .int (Int.tmod m n)))
-            else if op == ['<'] then .ok (.bool (m < n)) else if op == ['>'] then .ok (.bool (m > n))
-            else if op == ['<','='] then .ok (.bool (m ≤ n)) else if op == ['>','='] then .ok (.bool (m ≥ n))
-            else unsupported
-          | .str s, .str t =>
-            if op == ['+'] then .ok (.str (s ++ t))
-            else if op == ['<'] then .ok (.bool (s < t)) else if op == ['>'] then .ok (.bool (t < s))
-            else if op == ['<','='] then .ok (.bool (s ≤ t)) else if op == ['>','='] then .ok (.bool (t ≤ s))
-            else unsupported
-          | _, _ => .err "expr" "invalid operation".toList
+      | .ok x, .ok y => binOp op x y
       | .ok _, r => r
       | r, _ => r
 end
